@@ -695,6 +695,11 @@ def World.onRestarted (w : World) (toks : List String) : World :=
   -- new instance, new replicators: nothing queued, nothing remembered
   let w := { w with repls := w.repls.filter (fun (x : Nat × Repl.St) => x.1 % 1000 != p) }
   let s := (w.store p).reopened
+  -- `noload`: the store is opened and not loaded (a producer that only appends): empty log, the cache as it was
+  if w.pending.contains "noload" then
+    { w.setStore p s with lastObs := w.lastObs.filter (·.1 != w.key p),
+                          mustRecover := w.mustRecover.filter (fun (x : Nat × List Nat) => x.1 != w.key p),
+                          limited := w.limited.filter (·.1 != w.key p) } else
   -- the whole persisted log: everything reachable from the cached heads
   let full := match s.load w.acl w.fetchAll (-1) with
     | .ok sf => (values sf.log).map (·.hash)
